@@ -22,8 +22,13 @@ pub const VHDR: &str = "x-vmon-api-version";
 const MAXV: &str = "18446744073709551615.18446744073709551615.18446744073709551615";
 
 fn build(table: &[MEndpoint]) -> Option<ApiDescription<C>> {
+    let order: Vec<usize> = (0..table.len()).collect();
+    build_in_order(table, &order)
+}
+
+fn build_in_order(table: &[MEndpoint], order: &[usize]) -> Option<ApiDescription<C>> {
     let mut api = ApiDescription::<C>::new();
-    for ep in table {
+    for ep in order.iter().map(|i| &table[*i]) {
         let e = make_endpoint(ep, &handler_key(ep))?;
         crate::panics::catch_quiet(std::panic::AssertUnwindSafe(|| api.register(e))).ok()?.ok()?;
     }
@@ -111,6 +116,37 @@ pub fn run(prop: &str, seed: u64, w: &Work) -> Report {
             rep.inconclusive("model-accepted table refused (C02 decides)");
             continue;
         };
+        // Whether a server WITHOUT a version policy accepts this (versioned) API must not
+        // depend on the order of registration (if it started in some order, dispatch
+        // without a version would pick whichever slice was registered first).
+        if table.iter().any(|e| !e.range.is_all()) {
+            let n = table.len();
+            let mut orders: Vec<Vec<usize>> = vec![(0..n).collect(), (0..n).rev().collect()];
+            // an unrestricted endpoint last / a restricted endpoint last
+            for want_all_last in [true, false] {
+                if let Some(k) = (0..n).find(|i| table[*i].range.is_all() == want_all_last) {
+                    let mut o: Vec<usize> = (0..n).filter(|i| *i != k).collect();
+                    rng.shuffle(&mut o);
+                    o.push(k);
+                    orders.push(o);
+                }
+            }
+            let mut outcomes = vec![];
+            for o in &orders {
+                let Some(api) = build_in_order(&table, o) else { continue };
+                let ctx = Ctx::new(EvLog::new());
+                let r = start(api, ctx, &SrvCfg { mode: HandlerTaskMode::Detached, body_max: 1024, versioned: None, workers: 1 });
+                outcomes.push((o.clone(), r.is_ok()));
+            }
+            rep.count("unversioned_start_attempts", outcomes.len() as u64);
+            if outcomes.iter().any(|x| x.1) && outcomes.iter().any(|x| !x.1) {
+                rep.violate(
+                    "C01:server-start-depends-on-registration-order",
+                    json!({"seed": seed, "table_index": t, "table": table_json(&table),
+                           "orders_and_whether_an_unversioned_server_started": outcomes}),
+                );
+            }
+        }
         let log = EvLog::new();
         let ctx = Ctx::new(log.clone());
         let scfg = SrvCfg {
